@@ -12,7 +12,7 @@ RULE = ("conflict-oriented seeded random pairs of the C13 universe (half of the 
         "older / equal / newer mtime, top level and nested; half of the shared document keys differ: flat, nested, mixed-type) x "
         "all strategies and key strategies (None, predicate, regex) x job-level and project-level entry points; plus two bounded-"
         "exhaustive cores: one shared file (3 content relations x 4 mtime relations x 6 strategies x 2 depths x recursive x entry) "
-        "and one shared key (10 x 10 values x 6 document strategies x depth 1..3); plus deep trees whose intermediate levels are identical (difference 3-5 levels down, also equal size and mtime, x deep) and stale '<document>~' backup files next to the destination document; and a ByKey() instance the caller reuses after a call that raised DocumentSyncConflict; quick samples the cores.  non-trivial: the "
+        "and one shared key (10 x 10 values x 6 document strategies x depth 1..3); plus deep trees whose intermediate levels are identical (difference 3-5 levels down, also equal size and mtime, x deep) and stale '<document>~' backup files next to the destination document; excluded names inside cloned jobs / left-only directories / as directory names / matching signac's own files (exclude None, str, list), and a ByKey() instance the caller reuses after a call that raised DocumentSyncConflict; quick samples the cores.  non-trivial: the "
         "call changed the destination or raised; distinct by the JSON of the scenario")
 TRUSTED = [
     "float.__repr__ as an oracle table (documents); re.match outcomes for exclude patterns / regex key strategies as tables "
@@ -37,7 +37,12 @@ def gen_inputs(tier, rng):
     if tier == "quick":
         files, docs = rng.sample(files, 140), rng.sample(docs, 140)
         nested, backup = rng.sample(nested, 100), rng.sample(backup, 80)
-    return descs + files + docs + nested + backup + sync_gen.core_reuse_cases()
+    return descs + files + docs + nested + backup + _excl(tier, rng) + sync_gen.core_reuse_cases()
+
+def _excl(tier, rng):
+    cases = sync_gen.core_exclude_cases()
+    return cases if tier != "quick" else rng.sample(cases, 50)
+
 
 def run_case(desc):
     return sync_gen.run_scenario(desc, PROP)
